@@ -417,36 +417,10 @@ class DocumentMapper:
         return "", ""
 
     def _build_merged_meta_block(self, states_list) -> str:
-        change_lines = []
-        comment_lines = []
-        seen_sigs = set()
+        # The reader's rendering (threads included) is the reference: offsets must agree with it.
+        from adeu.ingest import _build_merged_meta_block
 
-        for ins_map, del_map, comments_set in states_list:
-            for map_obj in (ins_map, del_map):
-                for uid, meta in map_obj.items():
-                    sig = f"Chg:{uid}"
-                    if sig not in seen_sigs:
-                        auth = meta.author or "Unknown"
-                        change_lines.append(f"[{sig}] {auth}")
-                        seen_sigs.add(sig)
-
-            sorted_ids = sorted(list(comments_set))
-            for c_id in sorted_ids:
-                if c_id not in self.comments_map:
-                    continue
-                sig = f"Com:{c_id}"
-                if sig not in seen_sigs:
-                    data = self.comments_map[c_id]
-                    header = f"[{sig}] {data['author']}"
-                    if data["date"]:
-                        short_date = data["date"].split("T")[0]
-                        header += f" @ {short_date}"
-                    if data["resolved"]:
-                        header += "(RESOLVED)"
-                    comment_lines.append(f"{header}: {data['text']}")
-                    seen_sigs.add(sig)
-
-        return "\n".join(change_lines + comment_lines)
+        return _build_merged_meta_block(states_list, self.comments_map)
 
     def _add_virtual_text(self, text: str, offset: int, context_paragraph: Optional[Paragraph]):
         span = TextSpan(
